@@ -108,6 +108,7 @@ def run(chk):
     quick = chk.tier == "quick"
     cs = CaseSet("c05")
     plan = []
+    over_plan = {}
     kinds = ["continental plate", "oceanic plate", "mantle layer"]
     for wi in range(60 if quick else 900):
         rng.seed("%d/c05-1/%d" % (chk.seed, wi))      # every world has its own stream: families do not disturb each other
@@ -162,6 +163,15 @@ def run(chk):
         f["grains models"] = [gm]
         w["features"] = [f]
         slot = cs.add_world(w)
+        # the same world painted over: an earlier feature and an earlier temperature model of the same feature have already
+        # changed the temperature; a replacing model documented by a closed form returns that closed form whatever it finds
+        import copy as _copy
+        w2 = _copy.deepcopy(w)
+        f2 = w2["features"][0]
+        f2["temperature models"] = [{"model": "uniform", "temperature": 555.5}] + f2["temperature models"]
+        w2["features"] = [{"model": "mantle layer", "name": "earlier", "coordinates": [[-9e5, -9e5], [9e5, -9e5], [9e5, 9e5], [-9e5, 9e5]], "max depth": 9e5,
+                           "temperature models": [{"model": "uniform", "temperature": 777.25}]}, f2]
+        slot2 = cs.add_world(w2)
         for qi in range(10):
             ip = g.interior_point(poly)
             u = rng.random()
@@ -174,6 +184,7 @@ def run(chk):
             pos = (float(ip[0]), float(ip[1]), TOP - d)
             ps = [[1, 0, 0], [2, 0, 0], [2, 1, 0], [2, 2, 0], [2, 3, 0], [5, 0, 0], [3, gm["compositions"][0], 2]]
             i = cs.p3(slot, pos, d, ps)
+            over_plan[i] = cs.p3(slot2, pos, d, [[1, 0, 0]])
             plan.append((i, w, wv, f, m, cm, vm, gm, ip, d))
     # the "local top" clause with a feature whose own min depth is given at points: at a listed point the models measure
     # depth from the listed value, not from the smallest value of the surface
@@ -379,6 +390,12 @@ def run(chk):
             exp = adiabat(wv, d)
         else:
             chk.nontriv((i,))
+            v2 = common.parse_vec(impl[over_plan[i]]) if i in over_plan else None
+            if v2 is not None and abs(v2[0] - exp) > 1e-9 * max(1.0, abs(exp)):
+                dsc = cs.describe(over_plan[i])
+                dsc["expected"], dsc["got"], dsc["alone"] = exp, v2[0], v[0]
+                viol.append(("%s temperature model (%s) painted over an earlier feature and an earlier model returns %.10g, its documented closed "
+                             "form gives %.10g (it replaces the temperature: what was painted before must not matter)" % (m["model"], f["model"], v2[0], exp), dsc))
         per_model[m["model"]] = per_model.get(m["model"], 0) + 1
         if abs(v[0] - exp) > 1e-9 * max(1.0, abs(exp)):
             dsc = cs.describe(i)
